@@ -15,8 +15,11 @@ pub struct PanicInfo {
 impl PanicInfo {
     /// path below the repository root (or the last three components)
     pub fn file_tail(&self) -> String {
-        if let Some(i) = self.file.find("/repo/") {
-            return self.file[i + 6..].to_owned();
+        // (VERIF_REPO_ROOT: only set by tools/lab.sh, which runs the checks against a scratch worktree)
+        let root = std::env::var("VERIF_REPO_ROOT").unwrap_or_else(|_| "/repo".to_owned());
+        let needle = format!("{}/", root.trim_end_matches('/'));
+        if let Some(i) = self.file.find(&needle) {
+            return self.file[i + needle.len()..].to_owned();
         }
         let parts: Vec<&str> = self.file.split('/').collect();
         let n = parts.len();
